@@ -10,12 +10,18 @@ Implementation-shaped model of `update` / `next_state` / `parse_u32` / `reserve_
 `Limits`, which errors are "benign", and when the decoder becomes poisoned (`state = None`).
 
 Outside image-png, entering as parameters (`Cfg`): the CRC function, the inflater, UTF-8 validity.
-The inflater is used through its contract "output is a function of the compressed bytes fed so
-far": the model accumulates the compressed bytes of the current data-chunk sequence (`zin`) and
-asks `inflate` for everything decodable from that prefix (fdeflate is eager); what was not yet
-handed out is appended to `out`.  How many bytes one `decompress` call consumes (the real one may
-stop early when its output buffer is full) is not modelled — it is unobservable after the
-projection property C04 prescribes.
+The inflater is used through its contract (`Cfg.InflateOk`): `inflate z` is *all* output decodable
+from the prefix `z` of the zlib stream (fdeflate is eager), a prefix of a non-corrupt stream is not
+corrupt and yields a prefix of the output, and bytes after a complete stream are ignored.  The model
+accumulates the compressed bytes of the current data-chunk sequence (`zin`), appends what is newly
+decodable to `out` at every `ImageData` step (`zemitted` = how much of the current stream's output
+was already handed out) and requires a complete stream at the flush (`ImageDataFlushed`).  How many
+bytes one `decompress` call consumes (the real one may stop early when its output buffer is full) is
+not modelled: the `ImageData` step always takes `min(len, remaining)`.  How the output is split over
+`ImageData` events (and how many there are) depends on the delivery and is exactly what property C04
+declares unobservable.
+
+Proofs: `Proofs/Framing.lean` (progress/fuel of `update`: C07; delivery independence of `feed`: C04).
 -/
 namespace Png.Framing
 open Png
@@ -54,12 +60,21 @@ def isCritical (t : ChunkType) : Bool := (t / 16777216) % 64 < 32
 /-- what lives outside image-png -/
 structure Cfg where
   crc : Bytes → Nat
-  /-- ALL output decodable from this prefix of a zlib stream, and whether the stream is complete (final block
-      and 4-byte trailer seen; later bytes are ignored); `none` = corrupt -/
+  /-- incremental inflate: ALL output decodable from this prefix of the zlib stream, and whether the
+      stream is complete (final block and 4-byte trailer seen; bytes after that are ignored);
+      `none` = corrupt -/
   inflate : Bytes → Option (Bytes × Bool)
   /-- `fdeflate::decompress_to_vec_bounded`: `ok out` | `corrupt` | `tooLarge` -/
   inflateBounded : Bytes → Nat → Except Bool Bytes   -- error `true` = output too large, `false` = corrupt
   utf8Ok : Bytes → Bool
+
+/-- contract of `Cfg.inflate` (a hypothesis of theorems, never an axiom) -/
+structure Cfg.InflateOk (cfg : Cfg) : Prop where
+  /-- prefix-monotone: a prefix of a non-corrupt input is not corrupt and yields a prefix of the output -/
+  mono : ∀ (a b o2 : Bytes) (d2 : Bool), cfg.inflate (a ++ b) = some (o2, d2) →
+    ∃ o1 d1, cfg.inflate a = some (o1, d1) ∧ o1 <+: o2
+  /-- done-stable: bytes after a complete stream are ignored -/
+  done : ∀ (a b o : Bytes), cfg.inflate a = some (o, true) → cfg.inflate (a ++ b) = some (o, true)
 
 structure Options where
   ignoreAdler : Bool := true
@@ -179,7 +194,7 @@ def Dec.new (opts : Options) : Dec := { opts := opts }
 /-- `StreamingDecoder::reset` (stream.rs:588-597): note what it does NOT restore -/
 def Dec.reset (d : Dec) : Dec :=
   { d with state := some (.u32 .sig1 []), crcAcc := [], remaining := 0, raw := [], zin := [], zstarted := false, zemitted := 0,
-           info := none, seqNo := none, haveIdat := false }
+           info := none, seqNo := none, haveIdat := false, haveIccp := false, readyIdat := true, readyFdat := false, curType := 0 }
 
 /-! ## byte readers (`read_be`); `none` = `UnexpectedEof` -/
 def rdU8 : Bytes → Option (Nat × Bytes)
@@ -301,10 +316,11 @@ def parseSbit (d : Dec) : PRes :=
     if d.raw.any (fun s => s.toNat < 1 || s.toNat > sampleDepth) then throw (.format "InvalidSbit")
     pure (setInfo d (fun i => { i with sbit := some d.raw }), .nothing)
 
-/-- `parse_trns` (stream.rs:1205-1262): no `have_idat` test for gray/RGB -/
+/-- `parse_trns` (stream.rs:1205-1268) -/
 def parseTrns (d : Dec) : PRes :=
   withInfo d fun i => do
     if i.trns.isSome then throw (.format "DuplicateChunk tRNS")
+    if d.haveIdat then throw (.format "AfterIdat tRNS")
     let d ← reserve d d.raw.length
     let v := d.raw
     match i.color with
@@ -556,7 +572,7 @@ def parseChunk (cfg : Cfg) (d : Dec) (t : ChunkType) : Except Err (Ev × Dec) :=
           (match d.info with
            | some i =>
              let charged : Bool :=
-               if t = sBIT then !(i.palette.isSome || d.haveIdat || i.sbit.isSome) else !i.trns.isSome
+               if t = sBIT then !(i.palette.isSome || d.haveIdat || i.sbit.isSome) else !(i.trns.isSome || d.haveIdat)
              if charged then (match reserve d d.raw.length with | .ok d2 => d2 | .error _ => d) else d
            | none => d)
         else d
@@ -575,6 +591,25 @@ def reserveCurrentChunk (d : Dec) : Except Err Dec :=
   let d := { d with limit := d.limit - r, cap := max d.cap (d.raw.length + r) }  -- `reserve_exact(r)`
   if d.cap = d.raw.length then .error .limits else .ok d
 
+/-- `ZlibStream::finish_compressed_chunks` at the end of a data-chunk sequence (stream.rs:839) -/
+def flushData (cfg : Cfg) (d : Dec) : Except Err Dec :=
+  if !d.zstarted then .ok d else
+  match cfg.inflate d.zin with
+  | some (o, true) => .ok { d with out := d.out ++ o.drop d.zemitted }
+  | some (_, false) => .error (.format "CorruptFlateStream (InsufficientInput)")
+  | none => .error (.format "CorruptFlateStream")
+
+/-- the state that follows a chunk-type field (stream.rs:850-879) -/
+def afterType (d : Dec) (t : ChunkType) (length : Nat) : Except Err (St × Dec) :=
+  if t = fdAT then
+    if !d.readyFdat then .error (.format "UnexpectedRestartOfDataChunkSequence fdAT")
+    else if length < 4 then .error (.format "FdatShorterThanFourBytes")
+    else .ok (.u32 .seqNo [], d)
+  else if t = IDAT then
+    if !d.readyIdat then .error (.format "UnexpectedRestartOfDataChunkSequence IDAT")
+    else .ok (.imageData t, { d with haveIdat := true })
+  else .ok (.readChunkData t, d)
+
 /-- `parse_u32` (stream.rs:808-957).  `d.state = none` on entry (taken by `next_state`). -/
 def parseU32 (cfg : Cfg) (d : Dec) (kind : U32Kind) (b0 b1 b2 b3 : UInt8) : Except Err (Ev × Dec) :=
   let val := be32 b0 b1 b2 b3
@@ -591,30 +626,14 @@ def parseU32 (cfg : Cfg) (d : Dec) (kind : U32Kind) (b0 b1 b2 b3 : UInt8) : Exce
     if d.info.isNone ∧ t ≠ IHDR then .error (.format "ChunkBeforeIhdr") else
     if t ≠ d.curType ∧ (d.curType = IDAT ∨ d.curType = fdAT) then
       -- end of a data-chunk sequence: flush the inflater, re-parse the type on the next call
-      let d := { d with curType := t }
-      let flushed : Except Err Dec :=
-        if !d.zstarted then .ok d else
-        match cfg.inflate d.zin with
-        | some (o, true) => .ok { d with out := d.out ++ o.drop d.zemitted }
-        | some (_, false) => .error (.format "CorruptFlateStream (InsufficientInput)")
-        | none => .error (.format "CorruptFlateStream")
-      match flushed with
+      match flushData cfg { d with curType := t } with
       | .error e => .error e
       | .ok d =>
         let d2 : Dec := { d with zin := [], zstarted := false, zemitted := 0, readyIdat := false, readyFdat := false,
                                  state := some (.u32 (.type length) [b0, b1, b2, b3]) }
         .ok (.imageDataFlushed, d2)
     else
-      let next : Except Err (St × Dec) :=
-        if t = fdAT then
-          if !d.readyFdat then .error (.format "UnexpectedRestartOfDataChunkSequence fdAT")
-          else if length < 4 then .error (.format "FdatShorterThanFourBytes")
-          else .ok (.u32 .seqNo [], d)
-        else if t = IDAT then
-          if !d.readyIdat then .error (.format "UnexpectedRestartOfDataChunkSequence IDAT")
-          else .ok (.imageData t, { d with haveIdat := true })
-        else .ok (.readChunkData t, d)
-      match next with
+      match afterType d t length with
       | .error e => .error e
       | .ok (st, d) =>
         .ok (.chunkBegin length t,
@@ -640,74 +659,99 @@ def parseU32 (cfg : Cfg) (d : Dec) (kind : U32Kind) (b0 b1 b2 b3 : UInt8) : Exce
              { d with seqNo := some val, crcAcc := if d.opts.ignoreCrc then d.crcAcc else d.crcAcc ++ [b0, b1, b2, b3],
                       state := some (.imageData fdAT) })
 
-/-- `next_state` (stream.rs:677-806).  Returns `(consumed, event, decoder)`; on `error` the decoder
+/-- `self.state = s` -/
+def Dec.withState (d : Dec) (s : Option St) : Dec := { d with state := s }
+
+/-- the four accumulated bytes handed to `parse_u32`; `n` = bytes consumed from the input -/
+def parse4 (cfg : Cfg) (d : Dec) (kind : U32Kind) (l : Bytes) (n : Nat) : Except Err (Nat × Ev × Dec) :=
+  match l with
+  | b0 :: b1 :: b2 :: b3 :: _ => (parseU32 cfg d kind b0 b1 b2 b3).map fun (ev, d) => (n, ev, d)
+  | _ => .error (.panic "unreachable")
+
+/-- `next_state`, arm `U32 {kind, bytes, accumulated_count}` (stream.rs:688-726) -/
+def stepU32 (cfg : Cfg) (d : Dec) (kind : U32Kind) (acc buf : Bytes) : Except Err (Nat × Ev × Dec) :=
+  if acc.length = 0 ∧ buf.length ≥ 4 then parse4 cfg d kind buf 4
+  else
+    let n := min (4 - acc.length) buf.length
+    let acc' := acc ++ buf.take n
+    if acc'.length < 4 then .ok (n, .nothing, { d with state := some (.u32 kind acc') })
+    else parse4 cfg d kind acc' n
+
+/-- `next_state`, arm `ParseChunkData` (stream.rs:727-740): never looks at the input -/
+def stepParse (cfg : Cfg) (d : Dec) (t : ChunkType) : Except Err (Nat × Ev × Dec) :=
+  if d.remaining = 0 then (parseChunk cfg d t).map fun (ev, d) => (0, ev, d)
+  else (reserveCurrentChunk d).map fun d => (0, .partialChunk t, { d with state := some (.readChunkData t) })
+
+/-- `n` more bytes of the chunk body (`piece`, `piece.length = n`) go to the CRC and to `raw_bytes` -/
+def Dec.readPiece (d : Dec) (n : Nat) (piece : Bytes) : Dec :=
+  { d with crcAcc := if d.opts.ignoreCrc then d.crcAcc else d.crcAcc ++ piece,
+           raw := d.raw ++ piece, remaining := d.remaining - n }
+
+/-- `next_state`, arm `ReadChunkData` (stream.rs:741-776) -/
+def stepRead (d : Dec) (t : ChunkType) (buf : Bytes) : Except Err (Nat × Ev × Dec) :=
+  if d.remaining = 0 then .ok (0, .nothing, { d with state := some (.u32 (.crc t) []) })
+  else
+    let bufAvail := d.cap - d.raw.length
+    if bufAvail = 0 then .ok (0, .nothing, { d with state := some (.parseChunkData t) })
+    else
+      let n := min d.remaining (min buf.length bufAvail)
+      let d := d.readPiece n (buf.take n)
+      .ok (n, .nothing, { d with state := some (if d.remaining = 0 then .parseChunkData t else .readChunkData t) })
+
+/-- `n` more bytes of a data chunk (`piece`, `piece.length = n`) went through `inflater.decompress`,
+    after which `o` is everything decodable from the stream so far: the part of `o` not yet handed out
+    is appended to the caller's `image_data`; the CRC is updated unconditionally here (stream.rs:782) -/
+def Dec.imagePiece (d : Dec) (n : Nat) (piece o : Bytes) : Dec :=
+  { d with zin := d.zin ++ piece, zstarted := true, out := d.out ++ o.drop d.zemitted,
+           zemitted := max d.zemitted o.length, crcAcc := d.crcAcc ++ piece, remaining := d.remaining - n }
+
+/-- `next_state`, arm `ImageData` (stream.rs:777-790) -/
+def stepImage (cfg : Cfg) (d : Dec) (t : ChunkType) (buf : Bytes) : Except Err (Nat × Ev × Dec) :=
+  let n := min buf.length d.remaining
+  let piece := buf.take n
+  match cfg.inflate (d.zin ++ piece) with
+  | none => .error (.format "CorruptFlateStream")
+  | some (o, _) =>
+    let d := d.imagePiece n piece o
+    .ok (n, .imageData, { d with state := some (if d.remaining = 0 then .u32 (.crc t) [] else .imageData t) })
+
+/-- `next_state` (stream.rs:677-792).  Returns `(consumed, event, decoder)`; on `error` the decoder
     is poisoned (the caller keeps `state = none`). -/
 def nextState (cfg : Cfg) (d0 : Dec) (st : St) (buf : Bytes) : Except Err (Nat × Ev × Dec) :=
-  let d := { d0 with state := none }
+  let d := { d0 with state := none }      -- `self.state.take()`
   match st with
-  | .u32 kind acc =>
-    if acc.length = 0 ∧ buf.length ≥ 4 then
-      match buf with
-      | b0 :: b1 :: b2 :: b3 :: _ => (parseU32 cfg d kind b0 b1 b2 b3).map fun (ev, d) => (4, ev, d)
-      | _ => .error (.panic "unreachable")
-    else
-      let n := min (4 - acc.length) buf.length
-      let acc' := acc ++ buf.take n
-      if acc'.length < 4 then .ok (n, .nothing, { d with state := some (.u32 kind acc') })
-      else
-        match acc' with
-        | b0 :: b1 :: b2 :: b3 :: _ => (parseU32 cfg d kind b0 b1 b2 b3).map fun (ev, d) => (n, ev, d)
-        | _ => .error (.panic "unreachable")
-  | .parseChunkData t =>
-    if d.remaining = 0 then (parseChunk cfg d t).map fun (ev, d) => (0, ev, d)
-    else (reserveCurrentChunk d).map fun d => (0, .partialChunk t, { d with state := some (.readChunkData t) })
-  | .readChunkData t =>
-    if d.remaining = 0 then .ok (0, .nothing, { d with state := some (.u32 (.crc t) []) })
-    else
-      let bufAvail := d.cap - d.raw.length
-      if bufAvail = 0 then .ok (0, .nothing, { d with state := some (.parseChunkData t) })
-      else
-        let n := min d.remaining (min buf.length bufAvail)
-        let piece := buf.take n
-        let d := { d with crcAcc := if d.opts.ignoreCrc then d.crcAcc else d.crcAcc ++ piece,
-                          raw := d.raw ++ piece, remaining := d.remaining - n }
-        .ok (n, .nothing, { d with state := some (if d.remaining = 0 then .parseChunkData t else .readChunkData t) })
-  | .imageData t =>
-    let n := min buf.length d.remaining
-    let piece := buf.take n
-    -- `inflater.decompress`; the CRC is updated unconditionally here (stream.rs:795)
-    match cfg.inflate (d.zin ++ piece) with
-    | none => .error (.format "CorruptFlateStream")
-    | some (o, _) =>
-      let d := { d with zin := d.zin ++ piece, zstarted := true, out := d.out ++ o.drop d.zemitted, zemitted := max d.zemitted o.length,
-                        crcAcc := d.crcAcc ++ piece, remaining := d.remaining - n }
-      .ok (n, .imageData, { d with state := some (if d.remaining = 0 then .u32 (.crc t) [] else .imageData t) })
+  | .u32 kind acc => stepU32 cfg d kind acc buf
+  | .parseChunkData t => stepParse cfg d t
+  | .readChunkData t => stepRead d t buf
+  | .imageData t => stepImage cfg d t buf
+
+/-- fuel that `update` gives its loop; `Proofs/Framing.updateLoop_fuel` shows that it always suffices -/
+def updateFuel (buf : Bytes) : Nat := 5 * buf.length + 5
 
 /-- `update` (stream.rs:649-675): loop until an event other than `Nothing`, an error, or the buffer is
-    exhausted.  Fuel `3·|buf| + 4` always suffices (`Proofs/Framing`). -/
-def updateLoop (cfg : Cfg) : Nat → Dec → Bytes → Nat → Except Err (Nat × Ev × Dec)
-  | 0, d, _, consumed => .ok (consumed, .nothing, d)
+    exhausted.  The decoder is mutated in place by every iteration, so after an error it keeps what
+    the earlier iterations of the same call did (and `state = None`). -/
+def updateLoop (cfg : Cfg) : Nat → Dec → Bytes → Nat → Dec × Except Err (Nat × Ev)
+  | 0, d, _, consumed => (d, .ok (consumed, .nothing))
   | fuel+1, d, buf, consumed =>
-    if buf.isEmpty then .ok (consumed, .nothing, d) else
+    if buf.isEmpty then (d, .ok (consumed, .nothing)) else
     match d.state with
-    | none => .error (.panic "state.take().unwrap() (stream.rs:685)")
+    | none => (d, .error (.panic "state.take().unwrap() (stream.rs:685)"))
     | some st =>
       match nextState cfg d st buf with
-      | .error e => .error e
+      | .error e => ({ d with state := none }, .error e)
       | .ok (n, .nothing, d') => updateLoop cfg fuel d' (buf.drop n) (consumed + n)
-      | .ok (n, ev, d') => .ok (consumed + n, ev, d')
+      | .ok (n, ev, d') => (d', .ok (consumed + n, ev))
 
 /-- result of one `update` call: the decoder afterwards is always returned (poisoned on error) -/
 def update (cfg : Cfg) (d : Dec) (buf : Bytes) : Dec × Except Err (Nat × Ev) :=
   match d.state with
   | none => (d, .error .parameter)
-  | some _ =>
-    match updateLoop cfg (3 * buf.length + 4) d buf 0 with
-    | .ok (n, ev, d') => (d', .ok (n, ev))
-    | .error e => ({ d with state := none }, .error e)
+  | some _ => updateLoop cfg (updateFuel buf) d buf 0
 
 /-- a caller that keeps calling `update` until the buffer is used up or an error occurs; collects
-    the events.  Fuel: each call consumes a byte or returns a non-`Nothing` event. -/
+    the events.  Fuel: every call strictly decreases `5·|buf| + rank` (`Proofs/Framing.update_no_spin`),
+    so `5·|buf| + 5` suffices (`Proofs/Framing.feed_eq_run`). -/
 def feed (cfg : Cfg) : Nat → Dec → Bytes → List Ev → Dec × List Ev × Option Err
   | 0, d, _, evs => (d, evs.reverse, none)
   | fuel+1, d, buf, evs =>
